@@ -2,6 +2,7 @@
 import os
 import arena
 import rcheck
+import reactive
 import reactive_gen
 
 PID = "C04"
@@ -21,6 +22,33 @@ def gen(tier, rng):
     out += fam
     out += root_handle_disposal(fam)
     out += self_disposing_cleanups()
+    out += foreign_cleanups()
+    return out
+
+
+def foreign_cleanups():
+    """`@F` scenarios: every write the scenario makes -- here from inside a running effect / memo, a cleanup, a batch -- is followed
+    by the creation and disposal of a scope of the FOREIGN root whose cleanup reads every live signal of the scenario: cleanup
+    callbacks run untracked whoever is running, so the computation around the write subscribes to nothing (seed C04-h). Judged by
+    the subscription oracle of C03 (the programs are plain) besides the ownership clauses"""
+    out = []
+    k = 0
+    for kind in ("effect", "memo"):
+        for where in ("body", "cleanup", "batch", "nested"):
+            w = ("set", 2, ("add", ("getu", 2), ("lit", 1)))
+            if where == "body":
+                ss = [w]
+            elif where == "cleanup":
+                ss = [("oncleanup", 1, [w])]
+            elif where == "batch":
+                ss = [("batch", [w])]
+            else:
+                ss = [("effect", 6, ("body", None, [w], ("get", 5)))]
+            prog = [("signal", 1, ("lit", 1)), ("signal", 2, ("lit", 0)), ("signal", 3, ("lit", 0)), ("signal", 5, ("lit", 0)),
+                    (kind, 4, ("body", None, ss, ("get", 3))),
+                    ("set", 3, ("lit", 1)), ("set", 1, ("lit", 7)), ("set", 5, ("lit", 1)), ("set", 3, ("lit", 2)), ("set", 1, ("lit", 8)),
+                    ("set", 2, ("lit", 50)), ("dispose", 0)]
+            out.append(("foreign-cleanup:%d" % k, reactive.ViaForeign(prog))); k += 1
     return out
 
 
@@ -184,8 +212,8 @@ def item_scopes():
 
 def main(argv):
     return rcheck.run(
-        PID, argv, module="C04+C04a", theorems=["C04a_removed_never_alive", "C04a_drained_never_alive", "C04a_keys_fresh", "C04a_arena_refines_set", "C04a_free_list_complete", "C04a_fresh_arena_resurrects", "C04a_odd_rems_needed", "C04a_driver_is_history", "C04a_driver_keys_distinct", "C04a_driver_dead_stays_dead", "C04a_driver_reinit_kills", "C04a_driver_new_root_alive", "C04_program_final_state", "C04_dispose_not_alive", "C04_dispose_leak_free", "C04_dispose_no_edges",
-                                        "C04_dispose_cleanups_exact", "C04_cleanups_conserved", "C04_disposed_node_stays_clean", "C04_disposed_by_cleanup_not_rerun", "C04_rerun_iff_survived"], gen=gen, oracle=lambda prog, steps: rcheck.ownership_failures(prog, steps) + rcheck.destroyed_runs_again(prog, steps), nontrivial=nontrivial,
+        PID, argv, module="C04+C04a", theorems=["C04a_removed_never_alive", "C04a_drained_never_alive", "C04a_keys_fresh", "C04a_arena_refines_set", "C04a_free_list_complete", "C04a_fresh_arena_resurrects", "C04a_odd_rems_needed", "C04a_driver_is_history", "C04a_driver_keys_distinct", "C04a_driver_dead_stays_dead", "C04a_driver_reinit_kills", "C04a_driver_new_root_alive", "C04a_lines_keys_distinct", "C04a_lines_dead_stays_dead", "C04a_alive_iff_spec", "C04a_dispose_exact", "C04_program_final_state", "C04_dispose_not_alive", "C04_dispose_leak_free", "C04_dispose_no_edges",
+                                        "C04_dispose_cleanups_exact", "C04_cleanups_conserved", "C04_disposed_node_stays_clean", "C04_disposed_by_cleanup_not_rerun", "C04_rerun_iff_survived"], gen=gen, oracle=lambda prog, steps: rcheck.ownership_failures(prog, steps) + rcheck.destroyed_runs_again(prog, steps) + (rcheck.subscription_failures(prog, steps) if isinstance(prog, reactive.ViaForeign) else []), nontrivial=nontrivial,
         rule=("random ownership trees (scopes, effects creating effects/memos/signals/cleanups, run_in) x interleavings of "
               "re-runs, explicit disposals (also from callbacks and cleanups), closed by disposal of the root; non-trivial = "
               ">= 2 cleanups ran and some node was destroyed before the root disposal; distinct = distinct program text"),
